@@ -3,6 +3,7 @@ package redisemu
 import (
 	"fmt"
 	"io/fs"
+	"os"
 	"path/filepath"
 	"strconv"
 	"strings"
@@ -123,12 +124,21 @@ func (dss *dataStoreSet) flushDb(index int) {
 	defer dss.mu.Unlock()
 
 	delete(dss.dbs, index)
+	if dss.basePath != "" {
+		// the flushed content must not come back after a restart
+		os.Remove(dss.dataStoreFileName(index))
+	}
 }
 
 func (dss *dataStoreSet) flushAll() {
 	dss.mu.Lock()
 	defer dss.mu.Unlock()
 
+	if dss.basePath != "" {
+		for index := 0; index < 16; index++ {
+			os.Remove(dss.dataStoreFileName(index))
+		}
+	}
 	dss.dbs = map[int]*dataStore{}
 }
 
